@@ -18,6 +18,9 @@ mod sets;
 
 use runner::{Ctx, Tier};
 
+// Under Miri no allocator is installed: Miri checks the layout of every deallocation itself, but only when it owns the
+// global allocator (a wrapper ends in `free()`, which ignores the size).
+#[cfg(not(miri))]
 #[global_allocator]
 static ALLOC: runner::ReportingAlloc = runner::ReportingAlloc;
 
